@@ -269,3 +269,7 @@ def g3_wrapped(F, R):
         R.count('wrapped_values', min(n, 1))
         R.check(n >= 1, 'G3', 'wrapped:%s' % what.replace(' ', '-'), adt, '%s is read under read_consistent' % what,
                 'the %s (%s) is no longer read inside a closure passed to read_consistent' % (what, adt))
+
+
+def thorough_extra(R, here):
+    run_witnesses(R, here, {'C13G4ReadWriteOnly': 'read_config! on a WriteOnly field', 'C13G4WriteReadOnly': 'write_config! on a ReadOnly field'}, 'G4')
